@@ -362,6 +362,12 @@ func genPrio(engine, prop string, r *simrt.SplitMix) *PrioSc {
 			sc.H = n
 		}
 
+		if r.Intn(40) == 0 {
+			// many handlers: the disciplines size their output/feedback buffers and the
+			// feedback batch as HandlersQuantity/10 once that exceeds the number of inputs
+			sc.H = pick(r, 40, 64, 100, 257)
+		}
+
 		if sc.Class == "createfault" {
 			break
 		}
@@ -745,7 +751,7 @@ func genPrio(engine, prop string, r *simrt.SplitMix) *PrioSc {
 		sc.Ctl = append(sc.Ctl, PAction{WaitNs: ns, WaitSteps: steps, Kind: "graceful"})
 	}
 
-	if sc.plain() && (sc.Class == "normal" || sc.Class == "fault" || sc.Class == "dynamic" || sc.Class == "stop") && r.Intn(4) == 0 {
+	if sc.plain() && (sc.Class == "normal" || sc.Class == "fault" || sc.Class == "dynamic" || sc.Class == "stop") && (r.Intn(4) == 0 || sc.H >= 40) {
 		sc.Dispatch = true
 	}
 
